@@ -136,6 +136,17 @@ def corpus(full):
         "    let r;\n    { let b = world.borrow(e).unwrap(); r = b.component::<CompA>().0; }\n    let _ = r;", BORROWCK)
     add("iterator_outlives_world", "    let it = { let mut w2 = EcsWorld::default(); w2.arch_bar.iter().count(); w2.arch_bar.iter() };",
         "    let it = { let mut w2 = EcsWorld::default(); w2.arch_bar.iter().count() };", BORROWCK)
+    # reference conversions between typed and dynamic handles keep the lifetime of their source
+    add("entity_ref_into_any_across_destroy", "    let kept: &EntityAny = (&world.arch_foo.entities()[0]).into();\n    world.destroy(e2);\n    let _ = kept.raw();",
+        "    { let kept: &EntityAny = (&world.arch_foo.entities()[0]).into();\n    let _ = kept.raw(); }\n    world.destroy(e2);", BORROWCK)
+    add("entity_ref_into_any_outlives_local", "    let kept: &EntityAny;\n    { let tmp = e; kept = (&tmp).into(); }\n    let _ = kept.raw();",
+        "    let kept: EntityAny;\n    { let tmp = e; kept = *<&EntityAny>::from(&tmp); }\n    let _ = kept.raw();", BORROWCK)
+    add("direct_ref_into_any_outlives_local", "    let d = world.to_direct(e).unwrap();\n    let kept: &EntityDirectAny;\n    { let tmp = d; kept = (&tmp).into(); }\n    let _ = kept.archetype_id();",
+        "    let d = world.to_direct(e).unwrap();\n    let kept: EntityDirectAny;\n    { let tmp = d; kept = *<&EntityDirectAny>::from(&tmp); }\n    let _ = kept.archetype_id();", BORROWCK)
+    add("entity_mut_ref_into_any_outlives_local", "    let kept: &mut EntityAny;\n    { let mut tmp = e; kept = (&mut tmp).into(); }\n    let _ = kept.raw();",
+        "    let kept: EntityAny;\n    { let mut tmp = e; kept = *<&mut EntityAny>::from(&mut tmp); }\n    let _ = kept.raw();", BORROWCK)
+    add("direct_mut_ref_into_any_outlives_local", "    let d = world.to_direct(e).unwrap();\n    let kept: &mut EntityDirectAny;\n    { let mut tmp = d; kept = (&mut tmp).into(); }\n    let _ = kept.archetype_id();",
+        "    let d = world.to_direct(e).unwrap();\n    let kept: EntityDirectAny;\n    { let mut tmp = d; kept = *<&mut EntityDirectAny>::from(&mut tmp); }\n    let _ = kept.archetype_id();", BORROWCK)
     # handles are plain data
     add("handles_are_copy_send_sync", "    assert_css::<EcsWorld>();", "    assert_css::<Entity<ArchFoo>>(); assert_css::<EntityDirect<ArchBar>>(); assert_css::<SelectEntity>();", {"E0277"})
     return out
